@@ -28,6 +28,7 @@ impl<V: AsMut<Vec<u8>>> HuffmanEncoder<'_, '_, V> {
         if with_table {
             self.write_table();
         }
+        vhit!(enc_huf_1stream);
         Self::encode_stream(self.table, self.writer, data);
     }
 
@@ -38,6 +39,7 @@ impl<V: AsMut<Vec<u8>>> HuffmanEncoder<'_, '_, V> {
     /// * Encoded data in 4 streams, each padded to fill the last byte
     pub fn encode4x(&mut self, data: &[u8], with_table: bool) {
         assert!(data.len() >= 4);
+        vhit!(enc_huf_4streams);
 
         // Split data in 4 equally sized parts (the last one might be a bit smaller than the rest)
         let split_size = data.len().div_ceil(4);
@@ -121,6 +123,7 @@ impl<V: AsMut<Vec<u8>>> HuffmanEncoder<'_, '_, V> {
         let weights = self.weights();
         let weights = &weights[..weights.len() - 1]; // dont encode last weight
         if weights.len() > 16 {
+            vhit!(enc_huf_weights_fse);
             let size_idx = self.writer.index();
             self.writer.write_bits(0u8, 8);
             let idx_before = self.writer.index();
@@ -133,6 +136,7 @@ impl<V: AsMut<Vec<u8>>> HuffmanEncoder<'_, '_, V> {
             assert!(encoded_len < 128);
             self.writer.change_bits(size_idx, encoded_len as u8, 8);
         } else {
+            vhit!(enc_huf_weights_direct);
             self.writer.write_bits(weights.len() as u8 + 127, 8);
             let pairs = weights.chunks_exact(2);
             let remainder = pairs.remainder();
@@ -480,4 +484,12 @@ fn from_data() {
     let table2 = HuffmanTable::build_from_data(data).codes;
 
     assert_eq!(table, table2);
+}
+
+#[cfg(feature = "verif_hooks")]
+impl HuffmanTable {
+    /// Verification hook: (code, number of bits) for every symbol
+    pub fn verif_codes(&self) -> &[(u32, u8)] {
+        &self.codes
+    }
 }
